@@ -196,6 +196,7 @@ def keyOK (kvs : List (Nat × J)) : Prop :=
   match keyOf kvs with
   | none => True
   | some (.sc _) => True
+  | some .null => True
   | _ => False
 
 mutual
